@@ -858,7 +858,7 @@ func convertConst(a AV, t types.Type) AV {
 
 func (it *Interp) typeAssert(fr *frame, x *ssa.TypeAssert) AV {
 	a := it.val(fr, x.X)
-	want := Short(types.TypeString(x.AssertedType, nil))
+	want := Short(types.TypeString(unaliasDeep(x.AssertedType), nil))
 	res := func(ok bool, v AV) AV {
 		if x.CommaOk {
 			return AV{Kind: KTuple, Tup: []AV{v, CBool(ok)}}
@@ -973,6 +973,13 @@ func (it *Interp) binop(op token.Token, a, b AV, x *ssa.BinOp) AV {
 			other := a
 			if a.Kind == KNil {
 				other = b
+			}
+			// the dynamic-type feature of an interface value decides its nil-ness
+			if _, inDom := it.Dom["type("+other.String()+")"]; inDom || it.Env["type("+other.String()+")"].Kind != KSym || false {
+				if tv, ok := it.envGet("type(" + other.String() + ")"); ok {
+					isNil := tv.Kind == KNil
+					return CBool(isNil == (op == token.EQL))
+				}
 			}
 			v := it.lookup("(" + other.String() + " == nil)")
 			if v.Kind == KConst {
@@ -1316,4 +1323,13 @@ func effectStrings(es []Effect) (ss []string) {
 		ss = append(ss, e.String())
 	}
 	return ss
+}
+
+// unaliasDeep removes type aliases, also under one pointer.
+func unaliasDeep(t types.Type) types.Type {
+	t = types.Unalias(t)
+	if p, ok := t.(*types.Pointer); ok {
+		return types.NewPointer(types.Unalias(p.Elem()))
+	}
+	return t
 }
